@@ -327,6 +327,8 @@ fn run_d<T: Dur>(prop: DProp, tr: &DTrace, st: &mut Stats) -> Result<(), Viol> {
                                     st.bump("probe.tie_with_marker_height");
                                 }
                                 st.add("probe.ambiguous_branch_admitted", info.ambiguous as u64);
+                                st.add("probe.parabolic_exact_tie_with_neighbour", info.exact_tie as u64);
+                                st.add("probe.parabolic_exact_tie_strictness_mandatory", info.exact_tie_mandatory as u64);
                             }
                             Err((what, detail)) => {
                                 return Err(Viol::new(format!("Quantile:p2_step:{}", what), format!("observation #{}: {}", n_after, detail)));
@@ -1002,6 +1004,7 @@ impl Scenario for DScenario {
             budget,
             d_edits,
             d_apply,
+            |t: &DTrace| t.ops.len() * 2,
             |t| {
                 let mut st = Stats::default();
                 self.execute(t, &mut st)
